@@ -119,8 +119,11 @@ CHECKS = {
          "1 - 10^-k units, k >= 2 dropped digits); the Newton step is exact and squares the residual; negation commutes with the reciprocal under the mirrored mode (C12_neg_mirror); sign copying; "
          "zero/one shortcuts; C12_exact_when_short - whenever 1/x = Y * 10^-t with 0 < Y < 10^p (at most p significant digits), what is returned IS 1/x, under every mode. Every result of the real code is judged exactly (sign, |R x - 1| < unit*x, "
          "exact when 1/x has <= p digits) and compared exactly with the model, which receives the real f64 guess through a hook and reports non-termination within 400 steps.",
-         "Modelled rather than verified: the f64 initial guess (libm exp2; its value is handed over by a hook, and the premise |1 - x g| <= 94/100 of the theorems is observed on every generated input: "
-         "evidence tag +guess-beyond-94-percent, never seen; 64 of 50004 quick cases lie between 70% and 94% - the inputs built to push the guess through f64 underflow). Trusted: Lean kernel, extractor, harness/driver.",
+         "The premise about the guess is itself a theorem on the main path: C12_guess_premise - for every magnitude of at most 1074 bits (324 digits) the model of make_inv_guess (LN_2 * exp2(-bits) in f64 through "
+         "the rounding primitive, subnormal results included, converted exactly by the from-float model of C14) is a positive decimal within 94% of 1/x; C12_inverse_total_main_path then states termination and "
+         "accuracy with no premise. Modelled rather than verified: exp2 of an integer is the exact power of two and the f64 product is correctly rounded (the driver compares the modelled guess with the one the real "
+         "code hands over through a hook on every such input: tag +guess-model-differs, never seen). For longer magnitudes the back-up path (libm exp10, f32) is not modelled: there the premise |1 - x g| <= 94/100 is "
+         "observed on every generated input (tag +guess-beyond-94-percent, never seen). Trusted: Lean kernel, extractor, harness/driver.",
          "Lean 4 proof (termination and accuracy of the Newton iteration with rounding) + exact per-input test + differential correspondence", "DESIGN.md §5 C12"),
  "C13": ("PARTIAL BY NATURE. Lean model of exp (series loop with exact powers/factorials, impl_division per term - whose correct rounding is the theorem of C08 -, convergence test on the value "
          "trimmed to precision+5 digits, e^-x = 1/e^x). Kernel-checked for ALL arguments: C13_positive (whatever the routine returns is strictly positive - loop invariant over term, factorial, partial sum; "
